@@ -338,3 +338,49 @@ func elemRead(v ssa.Value) (x, idx ssa.Value, ok bool) {
 	}
 	return nil, nil, false
 }
+
+// loopBlocks: the natural loop of header h — h and every block that reaches a back edge t→h (h dominates t) without
+// passing through h.
+func loopBlocks(fn *ssa.Function, h *ssa.BasicBlock) map[*ssa.BasicBlock]bool {
+	in := map[*ssa.BasicBlock]bool{h: true}
+	var stack []*ssa.BasicBlock
+	for _, t := range h.Preds {
+		if h.Dominates(t) && !in[t] {
+			in[t] = true
+			stack = append(stack, t)
+		}
+	}
+	for len(stack) > 0 {
+		b := stack[len(stack)-1]
+		stack = stack[:len(stack)-1]
+		for _, q := range b.Preds {
+			if !in[q] {
+				in[q] = true
+				stack = append(stack, q)
+			}
+		}
+	}
+	return in
+}
+
+// earlyLoopExits lists the edges that leave the loop of header h other than the header's own exhaustion edge
+// (break, return, goto out of the body).  A panic block is not an exit.
+func earlyLoopExits(fn *ssa.Function, h *ssa.BasicBlock) []*ssa.BasicBlock {
+	in := loopBlocks(fn, h)
+	var out []*ssa.BasicBlock
+	for b := range in {
+		if b == h {
+			continue
+		}
+		if _, isRet := lastInstr(b).(*ssa.Return); isRet {
+			out = append(out, b)
+			continue
+		}
+		for _, s := range b.Succs {
+			if !in[s] {
+				out = append(out, b)
+			}
+		}
+	}
+	return out
+}
